@@ -349,6 +349,8 @@ package eval
 // the point set of t is what it was just before the call (after-call assertions)
 //@ pred samePtsPrev(t *common.ConnectionSet) = forall q corev1.Protocol, n int :: {iset(t.AllowedProtocols[q].Ports)[n]} {prev(iset(t.AllowedProtocols[q].Ports)[n])}
 //@     pts(t, q, n) == prev(pts(t, q, n))
+//@ pred ptsGrowsPrev(t *common.ConnectionSet) = forall q corev1.Protocol, n int :: {iset(t.AllowedProtocols[q].Ports)[n]} {prev(iset(t.AllowedProtocols[q].Ports)[n])}
+//@     prev(pts(t, q, n)) ==> pts(t, q, n)
 //@ pred ptsIncl(a *common.ConnectionSet, b *common.ConnectionSet) = forall q corev1.Protocol, n int ::
 //@     {iset(a.AllowedProtocols[q].Ports)[n]} {iset(b.AllowedProtocols[q].Ports)[n]} pts(a, q, n) ==> pts(b, q, n)
 //@ pred cweIncluded(np *k8s.NetworkPolicy, pod *k8s.Pod, isIngress bool) =
@@ -384,7 +386,8 @@ package eval
 //@   hint assert.before6.expoprev: expo5
 //@   hint assert.before3.first: call1.sound, call2.sound, call1.ip, call2.ip, requires
 //@   hint assert.call5.expocur: call5.grows, keepcwe5
-//@   hint assert.call5.expo5: call5.grows, keepcwe5, expo4
+//@   hint assert.call5.expo5: accgrows5, keepcwe5, expo4
+//@   hint assert.call5.accgrows5: call5.grows, call5.own
 //@   hint assert.before6.expocur: expocur
 //@   hint assert.call6.expocur6: expocur, keepacc, keepcwe
 //@   hint loop1.preserve.pts: sofar, cur, call6.pts, call6.others
@@ -404,6 +407,8 @@ package eval
 //@   before call 5:
 //@     assert expo4: forall j int :: {netpols[j]} (0 <= j && j <= rangeindex - 1) ==> cweIncluded(netpols[j], peerPod(selPeer(src, dst, isIngress)), isIngress)
 //@   after call 5:
+//@     assert accgrows5: (isIngress ==> ptsGrowsPrev(peerPod(selPeer(src, dst, isIngress)).IngressExposureData.ClusterWideConnection))
+//@         && (!isIngress ==> ptsGrowsPrev(peerPod(selPeer(src, dst, isIngress)).EgressExposureData.ClusterWideConnection))
 //@     assert keepcwe5: forall j int :: {netpols[j]} (0 <= j && j < len(netpols)) ==>
 //@         (samePtsPrev(netpols[j].IngressPolicyExposure.ClusterWideExposure) && samePtsPrev(netpols[j].EgressPolicyExposure.ClusterWideExposure))
 //@     assert expo5: forall j int :: {netpols[j]} (0 <= j && j <= rangeindex - 1) ==> cweIncluded(netpols[j], peerPod(selPeer(src, dst, isIngress)), isIngress)
@@ -472,6 +477,8 @@ package eval
 
 //@ func (*PolicyEngine).removeRepresentativePeersMatchingLabels
 //@   requires pe != nil && repPeersOK(pe)
+//@   hint loop1.preserve.complete: inv.complete, inv.sub, call*.*
+//@   hint loop1.preserve.sound: inv.sound, inv.sub, call*.*, requires
 //@   modifies *
 //@   modifies PolicyEngine.representativePeersMap { r | false }
 //@   ensures [C07] exact: pe.representativePeersMap != nil ==> (forall key string :: {key in pe.representativePeersMap} {old(key in pe.representativePeersMap)}
